@@ -172,6 +172,24 @@ def oracles(source, four, rows, ob):
         a, b = wn[k] - ob['wnw'][k] / 2, wn[k] + ob['wnw'][k] / 2
         if b - a > 3 * step and not (a - step <= res[1][k] <= b + step):
             return 'binned model entry %d (%r) lies outside bin %d = [%r, %r] of the observation' % (k, res[1][k], k, a, b)
+        # the mean of f(x) = x over the whole of bin k is its centre (a bin averaged over only part of its range is not
+        # aligned with the observed value it is compared with)
+        if b - a > 3 * step and a >= native[0] and b <= native[-1] and abs(res[1][k] - wn[k]) > step:
+            return 'binned model entry %d is %r: the model f(x)=x averaged over bin %d = [%r, %r] is its centre %r' % (
+                k, res[1][k], k, a, b, wn[k])
+    # every entry is the overlap-weighted mean of the model over the observation's own bin (computed independently)
+    f2 = native ** 2
+    with np.errstate(all='ignore'):
+        res2 = np.asarray(ob['binner'].bindown(native, f2)[1], dtype=float)
+    nlo, nhi = native - step / 2, native + step / 2
+    for k in range(n):
+        a, b = wn[k] - ob['wnw'][k] / 2, wn[k] + ob['wnw'][k] / 2
+        ov = np.clip(np.minimum(nhi, b) - np.maximum(nlo, a), 0, None)
+        if ov.sum() > 0 and b - a > 3 * step:
+            want = float((ov * f2).sum() / ov.sum())
+            if not math.isclose(res2[k], want, rel_tol=1e-9):
+                return 'binned model entry %d is %r, the overlap-weighted mean of the model over bin %d = [%r, %r] is %r' % (
+                    k, res2[k], k, a, b, want)
     return None
 
 
